@@ -75,6 +75,8 @@ def work(tier, seed):
     items += [{"kind": "sets", "alphabet": "ulp", "part": i, "parts": 16} for i in range(16)]
     items.append({"kind": "errors"})
     items.append({"kind": "pole"})
+    for k in range(3):
+        items.append({"kind": "alpha_sweep", "which": k, "n": 250 if tier == "quick" else 1500})
     return items
 
 
@@ -120,6 +122,8 @@ def run(item, ctx, tier, seed):
         return None
     if item["kind"] == "pole":
         return _run_pole(ctx)
+    if item["kind"] == "alpha_sweep":
+        return _run_alpha_sweep(item, ctx)
     ulp_item = item.get("alphabet") == "ulp"
     ms = multisets(b, ULP_ALPHABET) if ulp_item else multisets(b)
     theta_hats = ULP_THETA_HATS if ulp_item else b["theta_hat"]
@@ -312,6 +316,39 @@ def run(item, ctx, tier, seed):
                                 ctx.fail("components-independent", dict(case, component=k, scale=scales[k], alpha=0.1),
                                          observed=flat[k], expected=single)
     ctx.sample({"kind": "stacked", "metric_shapes": b["metric_shapes"], "alpha_shapes": b["alpha_shapes"]})
+    return None
+
+
+def _run_alpha_sweep(item, ctx):
+    """One process, hundreds of pairwise distinct alphas (customary levels, values rounding to them, a ladder),
+    then the first ones again: each answer against the documented formula (bounded caches, rounded lookup keys)."""
+    k, n = item["which"], item["n"]
+    theta = [[0.0, 1.0, 2.0, 5.0, 5.0, 7.5, 9.0, 3.0, 1.0, 4.0, 6.0, 2.5], [0.3, 0.1, NAN, 0.7, 0.2, 0.9, 0.4],
+             [float(i * i % 17) for i in range(40)]][k]
+    th = [3.0, 0.35, 8.0][k]
+    near = []
+    for c in (0.001, 0.01, 0.05, 0.1, 0.2, 0.32, 0.5):
+        near += [c, 1 - (1 - c), c * (1 + 6e-3), c * (1 - 4e-3), c + 3e-4, c * (1 + 1e-4), math.nextafter(c, 1.0)]
+    ladder = [(j + 0.41 + 0.01 * k) / (n + 1) for j in range(n)]
+    hist = list(dict.fromkeys(near + ladder))
+    hist = hist + hist[:16]
+    fin = [t for t in theta if not math.isnan(t)]
+    tol = 1e-9 * (max(fin) - min(fin))
+    ctx.state()
+    for step, alpha in enumerate(hist):
+        for method in METHODS:
+            case = {"kind": "alpha_sweep", "theta": theta, "theta_hat": th, "alpha": alpha, "method": method, "step": step}
+            ok, ci = guarded(ctx, "call", case, _call, theta, th, alpha, method)
+            ctx.tick()
+            ctx.nontrivial()
+            if not ok:
+                continue
+            want = refs.ref_bootstrap_ci(theta, th, alpha, method)
+            if want is not None and not np.allclose(np.asarray(ci, dtype=float), want, rtol=0, atol=tol):
+                ctx.fail("limits-equal-documented-formula", case, observed=ci, expected=list(want))
+                return None
+    ctx.outcome(("alpha_sweep", k, len(hist)))
+    ctx.sample({"kind": "alpha_sweep", "which": k, "history_length": len(hist)})
     return None
 
 
